@@ -99,7 +99,8 @@ BOUNDS = {
               "values": "ints; initial scalar 7 / per-key 11,22,..; assigned values distinct per history position"},
     "thorough": {"pools": {k: {"pool": v[0], "all_subsets_up_to": v[1], "size4_from": v[2]} for k, v in POOLS_T.items()},
                  "moduli": MODS_T, "big_moduli": BIGMODS_T, "history_structures": STRUCT_B_T, "history_len": 4,
-                 "history_alphabet": "9 mutators (+ set1-np, iaddn, iaddt) + 10 readers",
+                 "history_alphabet": "length <= 4: 6 mutators + 10 readers; length <= 3: 9 mutators (+ set1 with a numpy "
+                                     "scalar key, += number, += table) + 10 readers",
                  "random": "30000 random structures x random histories of length 5..8"},
 }
 
@@ -277,8 +278,13 @@ def cases(tier, seed):
     # ---- Part B: histories
     for dt, keys, mod in (STRUCT_B_Q if quick else STRUCT_B_T):
         for kind in ("per", "scalar"):
-            for h in histories(dt, keys, mod, 3 if quick else 4, 0 if quick else 1):
+            for h in histories(dt, keys, mod, 3 if quick else 4, 0):
                 yield {"part": "B", "dtype": dt, "keys": keys, "mod": mod, "vals": init_vals(len(keys), kind), "ops": h}
+            if not quick:       # the larger alphabet up to length 3 (only histories that use one of the extra mutators)
+                for h in histories(dt, keys, mod, 3, 1):
+                    if any(o[0] in ("iaddn", "iaddt") or (o[0] == "set1" and o[3] == "np") for o in h):
+                        yield {"part": "B", "dtype": dt, "keys": keys, "mod": mod, "vals": init_vals(len(keys), kind),
+                               "ops": h}
     # ---- random part
     if not quick:
         rng = np.random.default_rng(seed)
